@@ -1,5 +1,46 @@
-import Secp.Hand.History
-/-! # C15 — placeholder: theorems are being added in this session -/
+import Secp.Proofs.SlicesFrame
+import Secp.Gen.Facts
+/-!
+# C15 — API calls never write to caller-owned memory and return fresh buffers
+
+Three layers. (1) A *static write analysis* of the Go source, re-run by `go2lean` on every check: for every exported
+function taking a byte slice it follows the slice (and every alias obtained by re-slicing, `slices.Grow`, `append`
+results, module-function returns) and records each statement form that can write through it — `s[i] = v`,
+`copy(s, …)`, `append(s, …)`, `binary.BigEndian.Put*(s, …)`, `subtle.ConstantTimeCopy(_, s, _)`, `h.Sum(s)`, or passing it to a
+callee that does, or to an unknown external function. The result is the Lean constant `Facts.sliceParamWrites`; the
+theorem below says it is empty. On the pinned tree it listed `vetDSTXMD xmd.go:116 append-onto` for the three hashing
+functions (defect F5, commit 983d598). (2) A slice/heap *model* with Go's `append`/`make` semantics for the one function
+that builds a new slice out of a caller's slice, `vetDSTXMD`, with the frame and freshness theorems for every layout
+`(offset, len, cap)`; tied to the code by the family `MEM.vet` (backing array before/after, returned bytes, aliasing).
+(3) At run time every slice-taking API function is called on slices carved out of sentinel-filled arrays in 7
+layouts, returned buffers are mutated and re-read, pointer arguments compared (`mem` mode of the harness).
+The Go allocator and escape analysis are not modelled: "fresh" means a buffer the model allocated in this call.
+-/
 namespace C15
-theorem model_is_total : True := trivial
+open Hand.Slices
+
+/-- no exported function taking a byte slice — nor anything it calls — contains a statement that can write through it -/
+theorem no_write_through_slice_parameters : Facts.sliceParamWrites = [] := by decide
+
+/-- the functions this covers (so the list above is not empty because nothing was analysed) -/
+theorem analysed_functions : Facts.sliceAPIs =
+    ["(*secp.Element).Decode", "(*secp.Element).DecodeCompressed", "(*secp.Element).DecodeUncompressed",
+     "(*secp.Element).UnmarshalBinary", "(*secp.Scalar).Decode", "(*secp.Scalar).UnmarshalBinary",
+     "secp.EncodeToGroup", "secp.HashToGroup", "secp.HashToScalar"] := by decide
+
+/-- **frame and freshness of `vetDSTXMD`** in the slice model: no buffer that existed before the call changes — the
+caller's DST backing array is untouched over its entire length, spare capacity included, for every layout — and the
+returned DST′ lives in a buffer allocated by the call. -/
+theorem vetDST_frame (H : Spec.Bytes → Spec.Bytes) (h : Heap) (dst : Slice) :
+    (∀ i, i < h.length → (vetDST H h dst).1.getD i [] = h.getD i []) ∧ h.length ≤ (vetDST H h dst).2.buf :=
+  Hand.Slices.vetDST_frame H h dst
+
+/-- scalar and element arguments keep their value: the cell analysis shows the argument cells are never rebound -/
+theorem pointer_arguments_untouched :
+    ("Curve.addProjectiveComplete_eu_v", ["v"]) ∈ Facts.untouched ∧ ("Curve.isEqual", ["e", "u"]) ∈ Facts.untouched ∧
+    ("Curve.affine", ["e"]) ∈ Facts.untouched := by decide
+
+-- non-vacuity: a DST of length 2 inside a 6-byte array with spare capacity 3
+example : (vetDST (fun _ => List.replicate 32 0) [[9, 1, 2, 7, 7, 7]] ⟨0, 1, 2, 5⟩).1.getD 0 [] = [9, 1, 2, 7, 7, 7] := by decide
+
 end C15
